@@ -63,7 +63,8 @@ MINCASES = {'quick': 300, 'thorough': 2000}   # below this many histories the ru
 BUDGET_S = {'quick': int(os.environ.get('C10_BUDGET', 100)), 'thorough': int(os.environ.get('C10_BUDGET', 1500))}
 CHUNK = 10
 EVERY3D = {'quick': 10, 'thorough': 5}
-KNOWN = 'C10-refined-trimmed-simplex-boundary'
+KNOWN_FIXED1 = 'C10-refined-trimmed-simplex-boundary'   # fixed in /repo (Updim.swapdown accepts SimplexChild): regression reproducer only
+KNOWN = 'C10-refined-trimmed-childface-boundary'
 KNOWN2 = 'C10-retrimmed-3d-mosaic-inconsistent'
 KNOWN3 = 'C10-degenerate-mosaic-child-not-closed'
 
@@ -768,15 +769,17 @@ def _simplex_base(ref):
 
 
 def known_mechanism(mon, history, step, monitors):
-    """Predicate for the open finding C10-refined-trimmed-simplex-boundary.  All of:
+    """Predicate for the open finding C10-refined-trimmed-childface-boundary (what is left of C10-refined-trimmed-simplex-boundary after
+    Updim.swapdown learned about SimplexChild).  All of:
     * only boundary closure / the face ledger (which contains the boundary) fail;
     * the history has a trim/subset/minus followed later by refined_by/hinter/refine;
     * the failing topology is a HierarchicalTopology H over a SubsetTopology S;
     * the deficits  int_dS - int_dH  of (measure, n, x.n) equal, to rounding, the sum over exactly those pieces of dS
-      that (i) belong to an element of S that H refined, (ii) whose root reference is a simplex (line, triangle, tetrahedron) or any 3-D element
-      and (iii) whose chain below the element contains a generic Updim/ScaledUpdim item (an edge created by a cut: the items
-      whose swapdown does not handle SimplexChild); and that sum is not zero.
-    Anything else stays a plain violation.  Returns (bool, explanation)."""
+      that (i) belong to an element of S that H refined and (ii) whose chain below the element contains ScaledUpdim(child, E) with E the
+      child's own face (SimplexEdge / TensorEdge1 / TensorEdge2): a child face exposed because the cut coincides with it.  SimplexEdge.swapdown
+      gives up on (SimplexChild, SimplexEdge) pairs that are interior to the parent instead of forming ScaledUpdim, and TensorEdge.swapdown
+      mistakes the inner ScaledUpdim fallback of a nested tensor edge for a successful swap; and that sum is not zero.
+    Anything else stays a plain violation (in particular lost generic cut edges, the fixed finding).  Returns (bool, explanation)."""
     from nutils import topology, transform, function
     if not monitors or not all(m in ('boundary closure', 'face-measure ledger') for m in monitors):
         return False, 'other monitors failed'
@@ -808,21 +811,21 @@ def known_mechanism(mon, history, step, monitors):
     pa, pz, pf, owners = 0., numpy.zeros(D), 0., set()
     for b, chain in enumerate(SB.transforms):
         own, tail = S.transforms.index_with_tail(chain)
-        if own in unrefined or not (_simplex_base(S.references[own]) or D == 3):
-            continue   # 3-D: the same loss is observed for trimmed tensor elements (different path: the swapdown patch does not repair it)
-        if any(type(t) in (transform.Updim, transform.ScaledUpdim) for t in tail):
+        if own in unrefined:
+            continue
+        if any(type(t) is transform.ScaledUpdim and isinstance(t.trans2, (transform.SimplexEdge, transform.TensorEdge1, transform.TensorEdge2)) for t in tail):
             pa += ae[b]
             pz += ze[b]
             pf += fe[b]
             owners.add(int(own))
     if not owners or pa <= 0:
-        return False, 'no refined simplex element owns a cut edge'
+        return False, 'no refined element owns an exposed child face'
     s = mon.scale(bS['area'], bH['area'])
     ok = all(tolerance.compare(numpy.asarray(o, dtype=float), numpy.asarray(r, dtype=float), scale=s, check_kind=False)[0] == tolerance.PASS
              for o, r in ((bS['area'] - bH['area'], pa), (bS['z'] - bH['z'], pz), (bS['flux'] - bH['flux'], pf)))
     if not ok:
-        return False, f'boundary deficit {bS["area"] - bH["area"]:.6g} is not the measure {pa:.6g} of the cut edges of the refined simplex elements {sorted(owners)}'
-    return True, f'boundary lacks exactly the cut edges (measure {pa:.6g}) of the hierarchically refined {"3-D" if D == 3 else "simplex"} elements {sorted(owners)} of the trimmed topology'
+        return False, f'boundary deficit {bS["area"] - bH["area"]:.6g} is not the measure {pa:.6g} of the exposed child faces of the refined elements {sorted(owners)}'
+    return True, f'boundary lacks exactly the exposed child faces (measure {pa:.6g}) of the hierarchically refined elements {sorted(owners)} of the trimmed topology'
 
 
 def _retrimmed(topo):
@@ -1204,30 +1207,63 @@ def _repro_history(mesh, ls):
                 ops=[dict(op='trim', levelset=ls, maxrefine=1, ndivisions=8, name='trimmed', side='+'), dict(op='refined_by', frac=1., seed=0, prefer='cut')])
 
 
+def _run_repro(h):
+    r = Result()
+    idx, probs, mech = evaluate(h, r)
+    ok = not (r.counters.get('monitor_errors') or r.counters.get('mesh_construction_failed')) and r.counters.get('monitor/closure_normal')
+    return ok, idx, probs, mech, r
+
+
 def repro_refined_trimmed_simplex():
-    """mesh.line(4).trim(x-1.3, maxrefine=1).refined_by(cut element): boundary lacks the cut point.  The same history on triangles must fail
-    the same way and on a structured 2-D mesh must be clean and unsuppressed, otherwise the predicate is not looking at the mechanism."""
+    """FIXED finding (regression monitor): mesh.line(4).trim(x-1.3, maxrefine=1).refined_by(cut element) and the same on a triangle mesh with an
+    oblique plane lost the cut edges of the refined elements from the boundary; the structured 2-D counterpart was and is clean."""
     line = _repro_history(dict(kind='line', ndims=1, n=4, periodic=False), dict(kind='plane', normal=[1.], offset=1.3, tag='repro'))
     ls2 = dict(kind='plane', normal=[1., .3], offset=.45, tag='repro')
     tri = _repro_history(dict(kind='unitsquare', ndims=2, etype='triangle', n=3), ls2)
     sq = _repro_history(dict(kind='unitsquare', ndims=2, etype='square', n=3), ls2)
-    out = {}
+    bad = []
     for name, h in ('line', line), ('triangle', tri), ('square', sq):
-        r = Result()
-        idx, probs, mech = evaluate(h, r)
-        if r.counters.get('monitor_errors') or r.counters.get('mesh_construction_failed') or not r.counters.get('monitor/closure_normal'):
+        ok, idx, probs, mech, r = _run_repro(h)
+        if not ok:
             return None, f'monitors did not run on the {name} reproducer: {r.notes[:1]}'
-        out[name] = (idx, probs, mech)
-    if out['square'][0] is not None:
-        return None, 'structured 2-D counterpart fails: ' + '; '.join(f'{m}: {d}' for m, d in out['square'][1])[:300]
-    idx, probs, mech = out['line']
-    closure = [d for m, d in probs if m == 'boundary closure']
-    if closure and mech == KNOWN:
-        tri_state = 'triangle mesh: same failure' if out['triangle'][2] == KNOWN else 'triangle mesh: clean' if out['triangle'][0] is None else 'triangle mesh: fails differently'
-        return True, 'mesh.line(4).trim(x-1.3, maxrefine=1).refined_by([cut element]): ' + closure[0][:260] + f' ({tri_state}; structured 2-D counterpart clean)'
-    if probs:
-        return None, 'reproducer fails differently: ' + '; '.join(f'{m}: {d}' for m, d in probs)[:400]
-    return False, 'boundary of the hierarchically refined trimmed line is closed'
+        closure = [d for m, d in probs if m == 'boundary closure']
+        if name == 'square' and probs:
+            return None, 'structured 2-D counterpart fails: ' + '; '.join(f'{m}: {d}' for m, d in probs)[:300]
+        if closure:
+            bad.append(f'{name}: {closure[0][:160]}')
+        elif probs:
+            return None, f'{name} reproducer fails differently: ' + '; '.join(f'{m}: {d}' for m, d in probs)[:300]
+    if bad:
+        return True, 'trim then refined_by(cut elements) loses cut edges from the boundary: ' + ' | '.join(bad)
+    return False, 'boundaries of the hierarchically refined trimmed line and triangle meshes are closed'
+
+
+def repro_refined_trimmed_childface():
+    """OPEN: one cube, trim(0.5 - z, maxrefine=1) (the cut coincides with the child faces z = 0.5), refined_by([0]): the boundary lacks the four
+    exposed child faces (int n dS = (0, 0, -1)); same for one line element cut at its midpoint and a triangle cut along a child edge;
+    the x-face of the cube and a 2-D square are fine."""
+    def hist(mesh, normal):
+        return _repro_history(mesh, dict(kind='plane', normal=normal, offset=-.5, tag='repro'))
+    cases = [('cube z<.5', hist(dict(kind='rect', ndims=3, shape=[1, 1, 1], periodic=[]), [0., 0., -1.]), True),
+             ('line x<.5', hist(dict(kind='line', ndims=1, n=2, periodic=False), [-1.]), True),
+             ('triangle x<.5', hist(dict(kind='unitsquare', ndims=2, etype='triangle', n=1), [-1., 0.]), True),
+             ('square x<.5', hist(dict(kind='rect', ndims=2, shape=[1, 1], periodic=[]), [-1., 0.]), False)]
+    bad, clean = [], []
+    for name, h, expect in cases:
+        ok, idx, probs, mech, r = _run_repro(h)
+        if not ok:
+            return None, f'monitors did not run on the {name} reproducer: {r.notes[:1]}'
+        if probs and mech != KNOWN:
+            return None, f'{name} fails differently: ' + '; '.join(f'{m}: {d}' for m, d in probs)[:300]
+        if probs and not expect:
+            return None, f'{name} (expected clean) fails: ' + probs[0][1][:200]
+        (bad if probs else clean).append(name)
+    if 'cube z<.5' in bad:
+        closure = [d for m, d in _run_repro(cases[0][1])[2] if m == 'boundary closure']
+        return True, f'cube.trim(0.5-z, maxrefine=1).refined_by([0]): {closure[0][:260]} (also failing: {bad[1:]}; clean: {clean})'
+    if bad:
+        return True, f'exposed child faces lost for {bad}; clean: {clean}'
+    return False, 'boundaries of hierarchically refined elements cut along child faces are closed'
 
 
 def repro_retrimmed_3d_mosaic():
@@ -1270,7 +1306,8 @@ def repro_degenerate_mosaic_child():
     return False, 'complement of the trimmed triangle mesh is closed'
 
 
-REPRODUCERS = {KNOWN: repro_refined_trimmed_simplex, KNOWN2: repro_retrimmed_3d_mosaic, KNOWN3: repro_degenerate_mosaic_child}
+REPRODUCERS = {KNOWN_FIXED1: repro_refined_trimmed_simplex, KNOWN: repro_refined_trimmed_childface, KNOWN2: repro_retrimmed_3d_mosaic,
+              KNOWN3: repro_degenerate_mosaic_child}
 
 
 # ------------------------------------------------------------------ finalize
